@@ -8,7 +8,7 @@
    map-iteration oracle and clock value) of the model of the REPAIRED code
    (fixes 7baf630 c9f204c d6f86b5 in /repo; see FIXLOG.md). *)
 From PV Require Import Base.Prelude Base.Text Model.DHCP Model.DHCPShow Spec.DHCP Spec.DHCPCheck
-  Proofs.DHCP Proofs.DHCPInv Proofs.DHCPReply Proofs.DHCPTie Proofs.DHCPRestart Proofs.DHCPRefuted.
+  Proofs.DHCP Proofs.DHCPInv Proofs.DHCPReply Proofs.DHCPTie Proofs.DHCPRestart Proofs.DHCPGrant Proofs.DHCPRefuted.
 Open Scope list_scope.
 Open Scope N_scope.
 
@@ -62,6 +62,22 @@ Print Assumptions C11_reserved.
 Theorem C11_spec_column_never_fails : forall c h t, sub_ok c -> In t (trace c (init c) h) -> c11_fails c t = [].
 Proof. exact c11_fails_nil. Qed.
 Print Assumptions C11_spec_column_never_fails.
+
+(* What the server PROMISES against what it RECORDS.  For every ACK, from any state along any history: the
+   binding of that client id is recorded (state Allocated) at least until the clock value of the ACK plus
+   the lease time the ACK grants in option 51 (both are now + 4 h in the current code). *)
+Theorem C11_record_covers_grant : forall c s h t, In t (trace c s h) -> record_covers_grant t = true.
+Proof. exact record_covers_any_state. Qed.
+Print Assumptions C11_record_covers_grant.
+
+(* "Still acknowledged" judged by the GRANTED time.  ghost_fails replays the history with a ghost record of
+   the ACKs the clients hold (client id, address, until = clock of the ACK + granted time; a grant ends at
+   [until] or with the client's next message; time = the largest clock value seen so far) and flags every
+   OFFER/ACK of an address for which another client id's grant is still running: never. *)
+Theorem C11_granted_never_conflicts : forall c h,
+  all_nil (ghost_fails 0 [] (trace c (init c) h)) = true.
+Proof. exact granted_never_conflicts. Qed.
+Print Assumptions C11_granted_never_conflicts.
 
 (* Restart (lease expiry survives).  The lease file always holds every acknowledged lease exactly as it is
    in memory: every ACK — first acknowledgement or renewal — rewrites it, and a step that does not
